@@ -423,14 +423,17 @@ def _exact_fingerprint(v, text):
     if isinstance(v, A.ABytes):
         if v.src is not text:
             return False, "the bytes compared are not those of the whole text"
-        if v.errors in ("ignore", "replace"):
-            return False, "the text is encoded with a lossy error handler"
+        if v.errors not in ("strict", "surrogatepass"):
+            return False, f"the text is encoded with the error handler {v.errors!r}, under which two different texts can give the same bytes"
         return True, f"the {v.codec} encoding of the text itself"
     if isinstance(v, A.ADigest):
         whole = len(v.data) == 1 and isinstance(v.data[0], A.ABytes) and v.data[0].src is text
         full = v.lo in (0, None) and v.hi is None and v.step is None
         algo = v.algo in hashlib.algorithms_guaranteed
-        lossy = isinstance(v.data[0], A.ABytes) and v.data[0].errors in ("ignore", "replace") if whole else False
+        # only the strict handler (and surrogatepass, which gives lone surrogates byte sequences of their own) keeps different texts
+        # apart: ignore / replace drop characters, surrogateescape maps a lone surrogate onto the byte of another text's character,
+        # the *replace handlers write escapes that another text can spell out
+        lossy = isinstance(v.data[0], A.ABytes) and v.data[0].errors not in ("strict", "surrogatepass") if whole else False
         why = []
         if not whole:
             why.append("it is not computed from the whole text")
@@ -439,7 +442,7 @@ def _exact_fingerprint(v, text):
         if not algo:
             why.append(f"{v.algo} is not a hashlib digest")
         if lossy:
-            why.append("the text is encoded with a lossy error handler")
+            why.append(f"the text is encoded with the error handler {v.data[0].errors!r}, under which two different texts can give the same bytes")
         return (whole and full and algo and not lossy), ("; ".join(why) or f"full {v.algo} digest of the text")
     return None, f"a value of kind {type(v).__name__}"
 
